@@ -53,6 +53,7 @@ STRENGTHENED = [
     ("seeded/C05-e", "helpers two deep, argument expression spelled like the inner helper's parameter and like the binder of a lambda inside it", "C05 two-level shape: inner helper with a lambda, outer helper passing an argument expression over names drawn from the same 3-name pool"),
     ("seeded/C06-e", "if clauses of a comprehension re-ordered ('cheap cuts first') when an earlier clause loops over a sub-collection and a later one relies on it as a guard", "typed generator: guard pairs - first clause a nested comprehension / lambda over a member sequence, second clause `First(seq) == First(seq)`"),
     ("seeded/C08-e", "partially quoted return annotation Iterable['X'] / Box['X']", "C08 renders a third of the generic return annotations partially quoted (typing caches emptied per case)"),
+    ("seeded/C14-e", "the lambda that takes a package apart has a defaulted keyword-only parameter the call omits (no longer inlined)", "C14 enables called lambdas with keyword-only parameters in its producer / consumer chains"),
     ("seeded/C08-c", "generic subclass with more type parameters than its base uses", "C08 skeleton: Tag(Box[K], Generic[K,V]), Tag2(Box[V], ...), Swap(Pair[U,T], ...), HalfPair(Pair[T,int]), It2(Iterable[V], ...), TagInts(Tag[int,V]); class names taken from typing. This extension also exposed the genuine defects D29 and D30"),
 ]
 
@@ -93,7 +94,7 @@ def main():
               "| change | what it needs | strengthening |", "|---|---|---|"]
     for a, b, c in STRENGTHENED:
         lines.append(f"| {a} | {b} | {c} |")
-    lines += ["", "Caught at the first attempt: seeded/C19, C19-b, C15, C15-b, C20, C20-b, C16, C16-b, C13, C14, C14-b, C09, C09-b, C12, C12-b, C03, C02-b, C04-b, C04-c, C07-b, C07-c, C08-b, C11-c, C12-c, C13-c, C15-c, C16-c, C20-c, C02-d, C06-d, C10-d, C11-d, C13-d, C14-d, C15-d, C16-d, C17-d, C19-d, C07-e, C09-e, C10-e.",
+    lines += ["", "Caught at the first attempt: seeded/C19, C19-b, C15, C15-b, C20, C20-b, C16, C16-b, C13, C14, C14-b, C09, C09-b, C12, C12-b, C03, C02-b, C04-b, C04-c, C07-b, C07-c, C08-b, C11-c, C12-c, C13-c, C15-c, C16-c, C20-c, C02-d, C06-d, C10-d, C11-d, C13-d, C14-d, C15-d, C16-d, C17-d, C19-d, C07-e, C09-e, C10-e, C11-e, C12-e, C13-e, C15-e.",
               "Recurring lesson: most seeded changes need either a *naming coincidence* (same binder / method / variable name in two roles) or",
               "*process-level history* (a cache or shared default filled by an earlier query); generators must produce both on purpose.", ""]
     p = os.path.join(HERE, "DESIGN.md")
